@@ -82,6 +82,7 @@ struct CaseInfo {
   std::string desc;
   std::vector<std::string> excluded;    // known-finding ids that matched
   uint64_t hash = 0;                    // set by driver from ByteSource.h after the run
+  uint64_t mixin_count = 0;             // sub-evaluations inside the case (e.g. enumerated fault positions); summed under label sub_evaluations
   void label(const char* s) { labels.push_back(s); }
   void d(const char* fmt, ...) {
     if (!want_desc) return;
@@ -104,6 +105,9 @@ struct PropDef {
   void (*check)(ByteSource&, CaseInfo&);
   void (*setup)();                                  // once per process (may be null)
   std::vector<const char*> required_labels;
+  // hand-written deterministic reproductions of recorded findings (stable across generator changes):
+  // returns normally if the property holds on fixed case k, throws Fail otherwise; used by `--fixed k`
+  void (*fixed)(unsigned k, CaseInfo&) = nullptr;
 };
 extern PropDef g_prop;
 
